@@ -48,7 +48,7 @@ def main():
         units = [u for u in sorted(uf) if uf[u] & changed]
         target = meta["breaks_property"]
         def one(u):
-            r = sh("cd %s && bin/check --unit %s" % (VERIF, u), env=dict(os.environ, VERIF_REPO=scratch, VERIF_BUILD_TAG="_su_" + u))
+            r = sh("cd %s && bin/check --unit %s" % (VERIF, u), env=dict(os.environ, VERIF_REPO=scratch, VERIF_BUILD_TAG="_su", VERIF_NO_PROBE="1"))
             failed = [l.strip().split(" | ")[0].replace("FAILED ", "") for l in r.stdout.split("\n") if l.strip().startswith("FAILED")]
             st = re.search(r"status=(\w+)", r.stdout)
             return u, (st.group(1) if st else "crash"), failed
